@@ -25,20 +25,53 @@ CHECKS = {
  "C03": dict(
    text="Lean theorems: every Encoder method of the model writes exactly the RFC 8949 preferred serialisation (encPref) of the value it denotes, "
         "for all arguments of its Rust type (u8..u64, i8..i64, Int over [-2^64,2^64-1], type_len for all majors, bytes/str of any length, floats, "
-        "bool/null/undefined, tag/array/map heads and their composition with preferred elements); simple() is proved correct outside 20..=31 and "
-        "the counterexample inside (known finding K1) is machine-checked. Correspondence: the same calls on the real Encoder, exhaustive for 8/16-bit "
-        "arguments and simple values, boundary-dense + random for 32/64-bit, compared with model and with the spec encoder.",
-   design="5/C03", technique="Lean 4 proof (case split on width arms + omega) + differential correspondence model/code/spec",
-   note="partial: balanced call sequences (ops_denote) and built-in Encode impls are covered under C01/C07 theorems, not here yet"),
+        "bool/null/undefined, tag/array/map heads and their composition with preferred elements); ArrayIter/MapIter write one valid array/map of exactly the items yielded; "
+        "builtin_pref: every built-in Encode impl writes encPref of the value's data-model item. simple() is proved correct outside 20..=31 and "
+        "the counterexample inside (known finding K1) is machine-checked; bare Tag is K9. "
+        "BALANCED CALL SEQUENCES (Thm/C03Ops.lean; a call sequence is a List Token, Token.enc = the Encoder method): `Balanced ts ws` is a fuel-free inductive specification of "
+        "'ts is balanced and denotes the complete items ws' (array n + exactly n items, map n + 2n, tag + 1, begin_array..end, begin_map + even count..end, begin_bytes/begin_str + "
+        "definite chunks only..end; heads at prefWidth) and `balanced` its executable decision procedure (balanced_spec: balanced ts = some ws <-> Balanced ts ws). "
+        "ops_denote: balanced + arguments within their Rust types (Token.callOk; Encoder::f16 for EVERY f32) + no simple(20..=31) -> encodeTokens ts = encWs ws and validAll ws "
+        "(exactly the concatenation of well-formed items, nothing more, nothing less); ops_denote_statement without the K1 hypothesis is refuted (ops_denote_counterexample). "
+        "ops_denote_single: a single denoted item w: output = encW w, w valid, the RFC 8949 reference parser reads output++rest back as (w, rest), and value w = itemOfTokens ts "
+        "(C11's independent reader of the call arguments). ops_shortest (no hypotheses): every definite head (ints, string and chunk lengths, array/map lengths, tags) has the least "
+        "width; ops_preferred; ops_reference: without begin_* calls the output is encPrefs(values ws), identical to the reference encoder. ops_complete (converse): for all valid "
+        "wire trees ws, balanced(ws.flatMap toks) = some(canonL ws), so every well-formed item sequence is reachable; ops_append (histories compose); ops_unique. Unbalanced "
+        "sequences are not claimed well-formed (examples: [array 2, u8 1], bare tag, stray end, odd begin_map are not balanced). "
+        "Correspondence: the same calls on the real Encoder, exhaustive for 8/16-bit arguments and simple values, boundary-dense + random for 32/64-bit, compared with model and "
+        "with the spec encoder; enciter; stream balanced-call-sequences: Encoder::tokens on call sequences made from random wire trees (<= 40 calls, depth <= 6, definite + indefinite "
+        "containers, chunked strings, every fitting integer method, counts/lengths at width edges) and mutated (mostly unbalanced) sequences, judged by an orchestrator-side reader: "
+        "bytes == re-encoding of the denoted preferred trees, parse as exactly that many well-formed items, == model bytes, and the model's `balanced` denotation == the orchestrator's.",
+   design="5/C03", technique="Lean 4 proof (case split on width arms + omega; inductive relation Balanced with sound+complete fuel-bounded decision procedure; induction over derivations) + differential correspondence model/code/spec",
+   note="Known findings K1 (simple(20..=31)) and K9 (bare Tag) are excluded by explicit hypotheses with machine-checked counterexamples. Floats are written at the width of the call (f16 only on request), "
+        "as the property states. The Encoder keeps no state between calls, so 'histories' are call sequences; Encoder::encode(x) inside a sequence is covered by builtin_pref (one well-formed item each)."),
  "C04": dict(
-   text="Lean theorems: on every valid wire tree of the matching shape (any head width, definite or indefinite) followed by arbitrary bytes, the accessors "
-        "bytes/str/array/map/tag/bool/null/undefined/simple and the string iterators return exactly the data-model value and stop exactly at the end of "
-        "what they read (chunks of indefinite strings concatenate to the whole; invalid UTF-8 is rejected); integers via C05.int_accessor_exact. "
+   text="Lean theorems, all three clauses of the property proved (no oracle-only half left). "
+        "(1) Accessors: the 16 typed accessors of Decoder (bool, u8..i64/int, f16, f32, f64, char, bytes, str, bytes_iter, str_iter, array, map, tag, null, undefined, simple) as one "
+        "family Acc against a specification written on the wire tree: view a w = the shapes accessor a accepts and the data-model value (bytes/str: definite strings only; iterators: "
+        "definite or indefinite, chunks concatenate to the whole; intAcc t: uint/nint heads of any width representable in t; f64: f16/f32/f64 items widened; simple: not 20..23; "
+        "array/map/tag: head only), consumed/after = the bytes read / left. accessor_sound: view a w = some v -> a(encW w ++ rest) = ok v at exactly the end of what a reads (any head width, "
+        "UTF-8 validated). accessor_rejects / accessor_ok_iff: a(encW w ++ rest) = ok v r <-> view a w = some v and r = after a w ++ rest, i.e. a non-matching accessor returns an error, "
+        "never a different value (via the class of initial bytes each accessor can succeed on vs the initial byte of each valid tree). prefix_eoi: every strict prefix of the bytes a "
+        "matching accessor reads fails with the end-of-input class - never success, never another class, never a panic. "
+        "(2) Typed decoding, prefixes: decodeT t (all ~100 built-in Decode impls) is stable under extension of the input (appending bytes can only change an end-of-input outcome: "
+        "typed_stable, by induction over all loop combinators incl. skip and the fuelled loops at two fuels); hence typed_prefix_eoi: every strict prefix of the encoding of every value "
+        "(side conditions of C01.roundtrip) fails with end-of-input, and typed_prefix_eoi_any: the same for ANY input a type accepts (re-framings included). "
+        "(3) Typed decoding of ANY framing: interp t w = which wire trees a type accepts (integers at any width, strings definite only, seq/map/fields/[T;N] definite or indefinite, tuples "
+        "and the enum wrapper definite only, Option via null, Tagged at any tag width, floats widened, fields ignoring extra entries, Duration carry checks) and the data-model value; "
+        "typed_sound: interp t w = some v -> decodeT t (encW w ++ rest) = ok v rest; typed_rejects / typed_mismatch_err: interp t w = none -> an error, no value; typed_ok_iff; "
+        "typed_prefix_eoi_reframed: every strict prefix of any accepted framing -> end-of-input; for the whole universe except the bare "
+        "data::Tag impl (typed_bare_tag characterises it: a head reader; typed_sound_statement_needs_exclusion shows the exclusion is necessary), under FitsSlice (as C06). "
+        "interp_of_encode: the spec maps every encoder output back to the encoded value (cross-check against C01/C03). Integers: C05.int_accessor_exact; floats' values: C12; Size introspection: size_head/tail_sound. "
         "Correspondence: wire trees (all scalar shapes x widths x boundaries, containers at every width and indefinite, tags, chunked strings, random trees) x all 25 "
-        "accessors incl. non-matching ones, plus every strict prefix, judged by the property's oracle computed from the tree, and compared with the model.",
-   design="5/C04", technique="Lean 4 proof (head read-back lemmas, induction over chunk lists) + differential correspondence with tree-derived oracle",
-   note="partial: the 'non-matching accessor returns an error' and 'strict prefix -> end-of-input' halves are checked by the correspondence oracle only (theorems pending); "
-        "typed decoding of the ~100 built-in types is exercised in the C01/C02 streams"),
+        "accessors incl. non-matching ones, plus every strict prefix, typed decode of the 189 types on strict prefixes and re-framings, judged by the property's oracle computed from the tree, and compared with the model.",
+   design="5/C04", technique="Lean 4 proof (head read-back lemmas; initial-byte classes; a compositional 'stable under input extension' relation over the decoder monad incl. fuelled loops; "
+        "forward simulation of every Decode impl against a wire-tree interpreter by mutual structural induction over type descriptors, reusing C06 skip exactness) + differential correspondence with tree-derived oracle",
+   note="FULL for the model: 'matching -> exact value and position', 'non-matching -> error, never a different value' and 'strict prefix -> end-of-input' are theorems for all accessors and for typed decoding. "
+        "Stated side conditions: well-formed = image of encW on valid trees; FitsSlice (|encW w| < 2^64, true of every Rust slice) where skip() is involved; the bare data::Tag impl is excluded from typed_sound "
+        "because it reads a tag head, not an item (it is covered as the accessor `tag`); typed_prefix_eoi for canonical encodings carries C01's WF / NoOptOpt / length conditions, typed_prefix_eoi_any has none. "
+        "typed_prefix_eoi_reframed: every strict prefix of ANY accepted framing (interp t w = some v) fails with end-of-input; typed_mismatch_err: a rejected item gives an error (no panic, by C02). "
+        "Borrowed-slice pointer ranges are not expressible in the model (byte lists); they are observed by the harness only."),
  "C11": dict(
    text="Lean theorems (full, no partial fallback) about the model of Token (encode/decode), the Tokenizer iterator and token re-encoding. "
         "tokenize_encW / tokenize_item: for EVERY sequence of valid wire trees (any head widths, arbitrary nesting, indefinite arrays/maps, chunked strings; followed by arbitrary "
@@ -135,36 +168,62 @@ CHECKS = {
         "parameters are covered as their instantiations. A field tag inside a #[cbor(transparent)] struct is silently ignored by the macro (modelled and "
         "specified as such)."),
  "C09": dict(
-   text="Lean theorem derive_roundtrip (full for definite framing): for every accepted schema and well-typed value outside the documented Some(x)=null exclusion "
+   text="Lean theorem derive_roundtrip (full for the encoder's own framing): for every accepted schema and well-typed value outside the documented Some(x)=null exclusion "
         "(decidable predicate noClash), decTy t (encTy t v ++ rest) = ok (v with skipped fields defaulted) rest for ARBITRARY trailing bytes - the model of the "
         "generated Decode impl (per-field Option slots initialised Some(None)/None, definite loops of both encodings, match on index, tag checks, nil() / "
         "missing_value resolution, Default for skipped fields, unknown_var_err arms, enum wrapper + index dispatch, transparent) reads back what the generated "
-        "Encode impl wrote and stops exactly at its end. Error theorems: wrong tag -> tag mismatch (struct, enum); missing tag -> error; a declared mandatory "
-        "field with an empty body -> missing_value (+ resolve_missing: any unresolved mandatory slot); unknown top-level variant -> unknown_variant at the position "
-        "after the index. Borrowing: a decoded string / byte-string leaf is a contiguous slice of the input ending where the remaining input starts "
-        "(borrowed_leaf_is_input_slice); whether the Rust value keeps the slice or a copy is observed by pointer range in the harness. "
-        "Correspondence: the C08 corpus decoded from (i) its encoding, (ii) re-framings (all struct / variant / Vec containers indefinite, all heads widened), "
-        "(iii) top-level mutations (wrong / missing tag at four levels, dropped mandatory field, unknown variant), (iv) strict prefixes; oracle in the orchestrator "
-        "(value, position, borrow flags, error class) and equality with the model.",
-   design="5/C09", technique="Lean 4 proof (slot invariant over the decode loops, mutual structural induction) + generated-crate differential correspondence with in-orchestrator oracle",
-   note="partial: the theorems cover definite framing with preferred heads; indefinite / non-preferred framings are covered by the correspondence stream only, except "
-        "derive_enum_indefinite_wrapper_rejected (known finding K8: the generated enum decoder rejects an indefinite-length [index, body] wrapper, machine-checked). "
-        "`noClash` also demands that datatype() does not fail on the first byte of an encoding (always true for encodings; kept as a decidable hypothesis). "
-        "Front end outside the model as for C08."),
+        "Encode impl wrote and stops exactly at its end. "
+        "RE-FRAMED INPUT (proved, general): derive_decode_reframed: for every accepted schema t, value v and VALID wire tree w with `reframes t v w` (Reframe.lean, an executable "
+        "relation: the items of the derived encoding in order, every head - integers, string / array / map lengths, tags at all four levels, map keys, the variant index - at ANY "
+        "width, every struct body, variant body and Vec as a definite array / map of any head width OR an indefinite-length one, at every nesting depth; strings definite; the enum "
+        "wrapper [index, body] a definite array), decTy t (encW w ++ rest) = ok (withDefaults t v) rest. Proof: mutual structural induction (rf_dec / rf_fields / rf_vars) over the "
+        "schema; a generic engine for the four loops of gen_statements on arbitrary item bytes (arrLoopN_X / arrLoopI_X / mapLoopN_E / mapLoopI_E with fuel adequacy, "
+        "fieldsDec_arrN/arrI/mapN/mapI), body_reframed, enum_reframed, width-generic accessor theorems of C04/C05, first-byte facts of valid trees (startNB_encW, startOk_encW). "
+        "The full statement derive_decode_reframed_statement (any valid tree with the documented value and unchunked strings) is kept with its machine-checked refutation by K8 "
+        "(derive_decode_reframed_counterexample_K8, derive_decode_reframed_statement_false, derive_enum_indefinite_wrapper_rejected); reframed_examples: the K8 tree is not in "
+        "`reframes`, the same tree with a definite wrapper is, and concrete trees with all heads widened and indefinite bodies are. "
+        "Error theorems: wrong tag -> tag mismatch (struct, enum); missing tag -> error; a declared mandatory field with an empty body -> missing_value (+ resolve_missing: any "
+        "unresolved mandatory slot); unknown top-level variant -> unknown_variant at the position after the index. Borrowing: a decoded string / byte-string leaf is a contiguous "
+        "slice of the input ending where the remaining input starts (borrowed_leaf_is_input_slice); whether the Rust value keeps the slice or a copy is observed by pointer range "
+        "in the harness. Correspondence: the C08 corpus decoded from (o) the implementation's own bytes, (i) its encoding, (ii) re-framings (all struct / variant / Vec containers "
+        "indefinite, all heads widened), (iii) top-level mutations (wrong / missing tag at four levels, dropped mandatory field, unknown variant), (iv) strict prefixes; oracle in "
+        "the orchestrator (value, position, borrow flags, error class) and equality with the model.",
+   design="5/C09", technique="Lean 4 proof (slot invariant over the decode loops with per-index results, mutual structural induction, executable re-framing relation on wire trees) + "
+        "generated-crate differential correspondence with in-orchestrator oracle",
+   note="Re-framed input is a theorem for the relation `reframes`; what it leaves out of the unrestricted statement is exactly what the generated decoders reject: an "
+        "indefinite-length enum wrapper (known finding K8, machine-checked) and chunked strings (by design). `reframes` is defined by recursion on the schema (it reads the tree "
+        "along the type); that it implies `value w = specTy t v` and contains the preferred tree of every value is checked on examples by `decide` (reframed_examples), not proved "
+        "in general. `noClash` (the Some(x)=null exclusion) also demands that datatype() does not fail on the first byte of an encoding (always true; kept as a decidable "
+        "hypothesis); `reframes` needs no such hypothesis (a Some(x) re-framed as null is not in the relation). The theorem files are Thm/C09Round.lean (round trip, errors, "
+        "re-framing) and Thm/C09.lean (borrowing; imports the former). Front end outside the model as for C08."),
  "C10": dict(
-   text="Executable specification in Lean (Compat.lean): compatTy (directional 'reader reads writer': shared fields by index with equal tag and compatible types, "
-        "unshared reader fields optional, writer-only fields arbitrary, enum variants may differ only where the enum is the declared type of an optional field, "
-        "unit <-> all-optional-fields variants), project (the value the documentation promises the reader) and benign (excludes K5). Machine-checked: the K5 "
-        "counterexample and the falsity of the unrestricted statement (compat_counterexample_K5, compat_decode_statement_false), benign's exclusion is tight "
-        "(k5_benign_excludes), F5 is repaired (compat_F5_repaired), the documented edits do NOT compose when a retired index is re-used with another type "
-        "(compat_not_transitive), a reader's mandatory field unknown to the writer is a missing_value error (compat_missing_mandatory). The inductive relation "
-        "CompatStep lists one constructor per documented edit. Correspondence: chains of versions produced by random sequences of the documented edits (any "
-        "nesting depth, both encodings, regular / index_only enums, tagged fields, nil-aware codec) x every ordered pair x every writer value: implementation == "
-        "Lean project (value, position) and == model; deviations are accepted only where the model's hazard classification says K5.",
-   design="5/C10", technique="Lean 4 executable specification + machine-checked counterexamples + generated-crate differential correspondence against the specification",
-   note="partial: the general theorem `compatible w r -> benign -> decTy r (encTy w v ++ rest) = ok (project w r v) rest` is stated (compat_decode_statement, with "
-        "the K5 counterexample) but not yet proved for all schemas; the round trip (w = r) is C09's theorem; everything else about C10 rests on the correspondence "
-        "(1.6k-10k pairs per run against `project`). Front end outside the model as for C08."),
+   text="Lean theorem compat_decode (general, proved): for ANY two accepted versions w, r of a type with `compatible w r` (Compat.lean: compatTy, the directional relation "
+        "'reader r reads writer w' generated by the documented edits at any nesting depth - shared fields by index with equal tag and compatible types, unshared reader fields "
+        "optional, writer-only fields arbitrary, enum variants may differ only where the enum is the declared type of an optional field, unit <-> all-optional-fields variants, "
+        "both encodings, index_only and regular enums, transparent wrappers, Option, Vec) and every well-typed value v of w outside K5 (decidable `benign`) and outside the "
+        "Some(x)=null exclusion of C09 (noClash), with (encode w v).length < 2^64: EXISTS pv, project w r v = ok pv AND decTy r (encTy w v ++ rest) = ok pv rest for ARBITRARY "
+        "trailing bytes (compat_decode = project_defined + compat_decode_partial). Proof: mutual structural induction over the writer's schema following compatTy (compat_ty / "
+        "compat_one / compat_fields / compat_vars), the reader's slot loops on a body written by another version (fieldsDec_compat -> body_compat: shared fields projected "
+        "recursively, reader-only fields nil, writer-only items crossed by skip(), an unknown variant in an optional field skipped as a whole and the field left nil, siblings "
+        "untouched), enum rows (row_compat: unknown variant -> unknown_variant error only in lenient position; reader unit variant skips the body; unit writer variant read by a "
+        "variant with only optional fields), and skip() on unknown items discharged by C06.skip_exact because every derived encoding is a valid wire tree (spec_valid, skip_encTy). "
+        "compat_decode_lenient: in the declared type of an optional field the result is the projection or an unknown-variant error. proj_ty/project_defined: the projection is "
+        "total on compatible versions (never `bad`; `unknown` only in lenient position), so the theorem is not vacuous. Both directions of every documented edit are instances of "
+        "`compatible` (compat_refl, step_compatible_field, step_compatible_variant). Kept: compat_decode_statement (no benign) with its machine-checked refutation by K5 "
+        "(compat_counterexample_K5, compat_decode_statement_false), k5_benign_excludes, compat_F5_repaired, compat_not_transitive (a retired index re-used with another type), "
+        "compat_missing_mandatory; the one-level theorems compat_decode_fields / compat_decode_struct_partial / compat_add_optional_field / compat_drop_field / "
+        "compat_unknown_variant_*. Concrete two-version example with nesting, gap and new indices, map-encoded Vec elements, new variant in optional position and "
+        "unit->struct variant checked through the theorem (compat_example_hyps + examples). "
+        "Correspondence: chains of versions produced by random sequences of the documented edits (any nesting depth, both encodings, regular / index_only enums, tagged fields, "
+        "nil-aware codec) x every ordered pair x every writer value: implementation == Lean project (value, position) and == model; deviations are accepted only where the model's "
+        "hazard classification says K5.",
+   design="5/C10", technique="Lean 4 proof (mutual structural induction over pairs of schemas; slot invariant with per-index results; C06 skip exactness through C08's encode = spec) + "
+        "executable specification + machine-checked counterexamples + generated-crate differential correspondence against the specification",
+   note="The general theorem is proved for the whole schema universe of the derive model. Hypotheses beyond the property's wording, all decidable: benign (excludes exactly the "
+        "known finding K5), noClash (Some(x) encoded as null, C09's documented exclusion), encoding shorter than 2^64 bytes (true of every Rust slice; skip() counts in u64). "
+        "`compatible` is the relation that actually holds: the documented edits do not compose when a retired index is re-used with another type (compat_not_transitive), so the "
+        "correspondence generator never re-uses one. The inductive CompatStep (one constructor per documented edit) is related to `compatible` for add/drop field and add variant in "
+        "both directions; the remaining constructors (rename, unit->fields, congruences) are exercised by the correspondence and by compat_refl / examples. Front end outside the model as for C08."),
  "C05": dict(
    text="Lean theorem int_accessor_exact: for every accessor type (u8..u64,i8..i64,Int), every sign, every head width and every argument that fits the width, "
         "the model accessor returns the mathematical value and stops right after the head iff the value is representable in the type, and an error otherwise "
